@@ -339,6 +339,10 @@ func (e *SyncDiagnosticList) Clear() {
 }
 
 func (e *SyncDiagnosticList) IsFailure() bool {
+	// method bodies are checked concurrently: reading the slice while another
+	// goroutine appends to it can observe a nil element
+	e.Mutex.Lock()
+	defer e.Mutex.Unlock()
 	return e.DiagnosticList.IsFailure()
 }
 
